@@ -89,6 +89,9 @@ type c12Case struct {
 	Rival []int `json:"rival,omitempty"`
 	// AddPath: R's session has ADD-PATH (R sends, the server receives); routes carry path identifiers
 	AddPath bool `json:"add_path,omitempty"`
+	// Open2 (only with SecondCycle, a reconnect inside the restart window and no second loss): the OPEN of R's second
+	// session announces another restart time and other long-lived tuples; the second cycle has to run by these
+	Open2 *c12Open `json:"open2,omitempty"`
 }
 
 func drawC12(t *rapid.T) c12Case {
@@ -146,6 +149,13 @@ func drawC12(t *rapid.T) c12Case {
 			// running long-lived timers go on and gobgp marks routes only once; what happens to the routes of the short
 			// session in between is not pinned down by the property: not generated
 			c.SecondLoss = false
+		}
+		if c.SecondCycle && !c.SecondLoss && c.ReconnectAt <= c.Open.Time && c.Open.GR && rapid.Bool().Draw(t, "open2") {
+			o2 := c.Open
+			o2.Time = rapid.SampledFrom([]int{4, 12, 30}).Draw(t, "o2_time")
+			o2.LLGR = [2]bool{b("o2_l4", 1), b("o2_l6", 1)}
+			o2.LLTime = rapid.SampledFrom([]int{6, 20}).Draw(t, "o2_lltime")
+			c.Open2 = &o2
 		}
 		order := rapid.Permutation([]bool{false, true}).Draw(t, "eor_order")
 		for i, v6 := range order {
@@ -265,6 +275,9 @@ func (x *c12Run) openSpec(restarting bool) simOpenSpec {
 		spec.HoldTime = 9 // the second session negotiates hold time 0: the script sends no KEEPALIVEs
 	}
 	o := x.c.Open
+	if restarting && x.c.Open2 != nil {
+		o = *x.c.Open2
+	}
 	if o.GR {
 		g := &simGR{Restarting: restarting, Notification: o.NBit, Time: uint16(o.Time), LLGRTime: uint32(o.LLTime)}
 		if o.Fams[0] {
@@ -710,6 +723,12 @@ func runC12(t *testing.T) func(c c12Case, st *verifkit.Stats) *verifkit.Failure 
 			st.Nontrivial()
 			if c.SecondCycle && !c.SecondLoss && len(need) == 0 {
 				// ---- a second, complete restart cycle ----
+				if c.Open2 != nil {
+					// ... under what the second session's OPEN announced
+					c.Open = *c.Open2
+					T = time.Duration(c.Open.Time) * time.Second
+					st.Label("second-session-other-capabilities")
+				}
 				x.sess.close()
 				n.settle()
 				x.t0 = n.now()
